@@ -364,6 +364,11 @@ U(id="C01.sym.rep", props=["C01"], file="enc/encoder.rs", harnesses=["c01_sym_re
 U(id="C01.sym.match", props=["C01"], file="enc/encoder.rs", harnesses=["c01_sym_match_small", "c01_sym_match_mid"], thorough_harnesses=["c01_sym_match_large"], contract_stubs=BITCHAN,
   functions=[("src/enc/encoder.rs", "encode_match"), ("src/decoder.rs", "decode_match"), ("src/enc/range_enc.rs", "encode_reverse_bit_tree"), ("src/range_dec.rs", "decode_reverse_bit_tree")],
   contract="forall dist (classes <4, 4..127, >=128 incl. the end marker), len, state, history: decoder returns len and rep[0] = dist, history shifted, same state, same slots, channel drained")
+U(id="C03.xz.finish_block", props=["C03", "C02", "C18"], file="xz/writer.rs", features=NOSTD,
+  harnesses=["c03_xz_finish_block_crc32_e1", "c03_xz_finish_block_none_e4"], thorough_harnesses=["c03_xz_finish_block_crc64_e2"],
+  contract_stubs=["payload chain (accepts all bytes, emits 1..4 bytes on finish) installed as the block's writer"],
+  functions=[("src/xz/writer.rs", "finish_current_block"), ("src/xz/writer.rs", "add_padding"), ("src/xz/writer.rs", "write_block_checksum"), ("src/xz/writer.rs", "take_checksum"), ("src/xz/writer.rs", "get_checksum_size")],
+  contract="forall bookkeeping states: chain finished, zero padding to 4, Check field, exactly one index record with unpadded = header+compressed+check and uncompressed = this block's byte count; per-block counter restarts, stream counter untouched")
 
 # ---------------------------------------------------------------------------------------- quick-tier budget
 # Harnesses kept in the quick tier per unit; every other harness of the unit runs in the thorough tier only.
